@@ -64,6 +64,7 @@ type Sim struct {
 	Preempts int
 	Ambig    int
 	notes    []string
+	created  []string // files created by the code under test, in creation order
 
 	Inert bool // an enclosing run that only collects results of sub-runs: nothing ever parks in it
 
@@ -274,6 +275,11 @@ func (s *Sim) childLabel(pl, fn string) string {
 	if strings.Contains(fn, "performQueuedEvictionsContinuously") {
 		// the background remover of the instance its creator belongs to
 		return instancePrefix(pl) + "remover"
+	}
+	if strings.Contains(fn, "migrateDirectory") {
+		// a pool of identical workers: labelled by work item (the path at the
+		// scheduling point), not by worker
+		return pl + "/migrate"
 	}
 	base := pl + "/" + fn
 	k := s.children[base]
@@ -719,6 +725,22 @@ func (s *Sim) flushNotes() {
 			s.TraceLog = append(s.TraceLog, "  # "+msg)
 		}
 	}
+}
+
+// NoteCreated records that the code under test is about to create a file.
+func (s *Sim) NoteCreated(path string) {
+	s.mu.Lock()
+	if !s.closed {
+		s.created = append(s.created, path)
+	}
+	s.mu.Unlock()
+}
+
+// Created lists the files created so far, oldest first.
+func (s *Sim) Created() []string {
+	s.mu.Lock()
+	defer s.mu.Unlock()
+	return append([]string(nil), s.created...)
 }
 
 // Now is the global event sequence number (scheduling steps so far).
